@@ -1999,6 +1999,40 @@ impl SrcGen {
     }
 }
 
+/// deepest nesting of `(` / `[` in the text the real formatter prints for the tree (0 when it does not print).  The
+/// parser tries a cast and a parenthesised expression at every `(` and a template argument list at every `name <`, each
+/// reading the inside again: its running time doubles with every level (a depth-6 random tree with a dozen levels takes
+/// minutes, in the Lean model as well), so the random part of `template-args` keeps the nesting bounded.
+fn printed_nesting(tree: &SExp) -> usize {
+    let e = match de_expr(tree) {
+        Some(e) => e,
+        None => return 0,
+    };
+    let mut module = match lex_parse(Ctx::Ret.template()) {
+        Ok(m) => m,
+        Err(_) => return 0,
+    };
+    if put(&mut module, Ctx::Ret, e).is_none() {
+        return 0;
+    }
+    let text = match guard(|| rssl_formatter::format(&module, rssl_formatter::Target::Hlsl)) {
+        Ok(Ok(t)) => t,
+        _ => return 0,
+    };
+    let (mut d, mut max) = (0usize, 0usize);
+    for c in text.chars() {
+        match c {
+            '(' | '[' => {
+                d += 1;
+                max = max.max(d);
+            }
+            ')' | ']' => d = d.saturating_sub(1),
+            _ => {}
+        }
+    }
+    max
+}
+
 /// the shape of the known misreading `a < b … > (c)`: the tree has a `<` and a `>` operator, none of them inside an
 /// expression-or-type position, and its text has a lone `>` directly in front of `(`
 fn lt_gt_paren_shape(t: &SExp, text: &str) -> bool {
@@ -2031,6 +2065,9 @@ fn lt_gt_paren_shape(t: &SExp, text: &str) -> bool {
 }
 
 fn run_request(line: &str, out: &mut Out, hist: &mut Stats) {
+    if std::env::var_os("VERIF_C09_TRACE").is_some() {
+        eprintln!("{}", line);
+    }
     let f: Vec<&str> = line.split('\t').collect();
     match f.as_slice() {
         ["C09.rt", ctx, tree] => {
@@ -2293,6 +2330,8 @@ fn exhaustive(d: usize, full: bool) -> Vec<SExp> {
 /// operand, template argument of a type that is itself a template argument (`>` `>` adjacent), array size of an abstract
 /// declarator
 const TARG_POSITIONS: usize = 9;
+/// bound on the bracket nesting of the printed text of a random `template-args` tree (see `printed_nesting`)
+const MAX_TARG_NESTING: usize = 7;
 fn targ_position(e: &SExp, k: usize) -> SExp {
     let ea = SExp::list("E", vec![e.clone()]);
     let foo = |args: Vec<SExp>| {
@@ -2865,18 +2904,80 @@ pub fn run(args: &Args, out: &mut Out) {
     }
     for i in 0..(if thorough { 40000 } else { 3000 }) {
         let d = 3 + (i % 4) as usize;
-        let e = g.targ_expr(d);
-        let mut t = targ_position(&e, g.rng.below(TARG_POSITIONS as u64) as usize);
-        if g.rng.chance(1, 3) {
-            // not at the root: below an assignment, a conditional, a comma, a subscript …
-            let ws = targ_wrappers(&t, false);
-            t = ws[g.rng.below(ws.len() as u64) as usize].clone();
+        let mut t;
+        let mut tries = 0;
+        loop {
+            let e = g.targ_expr(d);
+            t = targ_position(&e, g.rng.below(TARG_POSITIONS as u64) as usize);
+            if g.rng.chance(1, 3) {
+                // not at the root: below an assignment, a conditional, a comma, a subscript …
+                let ws = targ_wrappers(&t, false);
+                t = ws[g.rng.below(ws.len() as u64) as usize].clone();
+            }
+            tries += 1;
+            if printed_nesting(&t) <= MAX_TARG_NESTING || tries >= 50 {
+                break;
+            }
+        }
+        if printed_nesting(&t) > MAX_TARG_NESTING {
+            continue;
+        }
+        if std::env::var_os("VERIF_C09_TRACE").is_some() {
+            eprintln!("nesting {}", printed_nesting(&t));
         }
         let ctx = *g.rng.pick(&["ret", "ret", "arg", "idx", "init", "stmt"]);
         let line = format!("C09.rt\t{}\t{}", ctx, t.show());
         run_request(&line, out, &mut st);
     }
     out.stat(&st.json("template-args"));
+    // stream 3b'': the known template misreading in argument lists, deliberately (not left to the seed): two or more
+    // entries of a call argument list / a comma expression in a subscript, an earlier one with a bare `<`, a later one with
+    // a bare `>` in front of `(` — `f(a < b, c > (d & e))` reads back as `f<b, c>(d & e)`-like with another argument count
+    // (known finding, class key `tree-differs[list-length] …`); and the neighbours that must read back: the `>` operand
+    // not parenthesised, the `<` entry parenthesised, `<=` / `<<` instead of `<`, `>=` / `>>` instead of `>`
+    let mut st = Stats::default();
+    {
+        let a = || parse_sexp("(id a)").unwrap();
+        let b = || parse_sexp("(id b)").unwrap();
+        let lts = ["LessThan", "LessEqual", "LeftShift"];
+        let gts = ["GreaterThan", "GreaterEqual", "RightShift"];
+        let rights = [
+            "(bin BitwiseAnd (id c) (id d))",
+            "(cast (ty S) (id d))",
+            "(tern (id c) (id d) (id e))",
+            "(id d)",
+            "(call (id d) () ())",
+            "(un PostfixIncrement (un PrefixIncrement (id d)))",
+        ];
+        for lt in lts {
+            for gt in gts {
+                for r in rights {
+                    let l = bin(lt, a(), b());
+                    let g2 = bin(gt, parse_sexp("(id c)").unwrap(), parse_sexp(r).unwrap());
+                    let lists: Vec<Vec<SExp>> = vec![
+                        vec![l.clone(), g2.clone()],
+                        vec![l.clone(), parse_sexp("(lit i 3)").unwrap(), g2.clone()],
+                        vec![bin("Add", a(), l.clone()), g2.clone()],
+                        vec![un("LogicalNot", l.clone()), g2.clone()],
+                        vec![g2.clone(), l.clone()],
+                    ];
+                    for args in lists {
+                        let t = SExp::list("call", vec![parse_sexp("(id f)").unwrap(), SExp::List(vec![]), SExp::List(args.clone())]);
+                        run_request(&format!("C09.rt\tret\t{}", t.show()), out, &mut st);
+                        // the same entries as a comma expression in a subscript and in a statement
+                        let mut seq = args[0].clone();
+                        for x in &args[1..] {
+                            seq = bin("Sequence", seq, x.clone());
+                        }
+                        let t = SExp::list("sub", vec![parse_sexp("(id v)").unwrap(), seq.clone()]);
+                        run_request(&format!("C09.rt\tret\t{}", t.show()), out, &mut st);
+                        run_request(&format!("C09.rt\tstmt\t{}", seq.show()), out, &mut st);
+                    }
+                }
+            }
+        }
+    }
+    out.stat(&st.json("lt-gt-lists"));
     // stream 3c: literals of every kind over the whole value range ("every literal reads back with the same value and type")
     let mut st = Stats::default();
     for i in 0..(if thorough { 60000 } else { 6000 }) {
